@@ -1808,3 +1808,77 @@ func valueDependsOnOnly(v ssa.Value, p *ssa.Phi) bool {
 	}
 	return walk(v, 0)
 }
+
+// ---- qualcount (C03): the quality line that is decoded is the one that was counted ----
+
+// ruleQualCount: the FASTQ reader reports a sequence/quality length mismatch
+// as an error. The scores are decoded from one byte slice; that decode is
+// reached only on the equal edge of a comparison of the length of that very
+// slice with the length of the letters read. A test of another value (the
+// line before its blanks were removed) lets through a quality line that has
+// the right number of bytes and the wrong number of scores: the record comes
+// back without an error, its tail unscored.
+func ruleQualCount(c *Ctx, rule string) {
+	sp := c.SPkgs[c.pkg("io/seqio/fastq").PkgPath]
+	n := 0
+	keys := map[string]int{}
+	for _, fn := range srcFuncs(sp) {
+		for _, b := range fn.Blocks {
+			for _, ins := range b.Instrs {
+				call, ok := ins.(*ssa.Call)
+				if !ok {
+					continue
+				}
+				nm := calleeName(&call.Call)
+				if nm != "DecodeToQphred" && nm != "DecodeToQsolexa" {
+					continue
+				}
+				// the byte decoded: an element of a byte slice
+				var src ssa.Value
+				for _, a := range call.Call.Args {
+					if u, ok := a.(*ssa.UnOp); ok && u.Op == token.MUL {
+						if ia, ok := u.X.(*ssa.IndexAddr); ok {
+							src = ia.X
+						}
+					}
+				}
+				if src == nil {
+					continue
+				}
+				n++
+				c.Funcs[funcName(fn)] = true
+				key := numberedKey(keys, funcName(fn)+"/decoded-line-is-the-counted-line")
+				lenOf := func(v ssa.Value) ssa.Value {
+					if lc := builtinCall(v, "len"); lc != nil {
+						return lc.Call.Args[0]
+					}
+					return nil
+				}
+				counted, other := false, false
+				var otherPos token.Pos
+				for _, bf := range branchesAt(b) {
+					x, y := lenOf(bf.cond.X), lenOf(bf.cond.Y)
+					if x == nil || y == nil || effectiveOp(bf, true) != token.EQL {
+						continue
+					}
+					if sameRead(x, src, 0) || sameRead(y, src, 0) {
+						counted = true
+					} else if types.Identical(x.Type(), src.Type()) || types.Identical(y.Type(), src.Type()) {
+						other, otherPos = true, bf.cond.Pos()
+					}
+				}
+				switch {
+				case counted:
+					c.ok(rule, key, call.Pos(), "the scores are decoded from the slice whose length was found equal to the number of letters")
+				case other:
+					c.bad(rule, key, otherPos, "the length compared with the number of letters is not that of the slice the scores are decoded from (the quality line before its blanks were removed): a quality line with the right number of bytes and fewer scores passes, and the record is returned without the mismatch error")
+				default:
+					c.bad(rule, key, call.Pos(), "the scores are decoded without the length of the quality line having been found equal to the number of letters: a sequence/quality length mismatch is not reported")
+				}
+			}
+		}
+	}
+	if n == 0 {
+		c.und(rule, "fastq/quality-decode", token.NoPos, "no decode of a quality byte found in the FASTQ reader")
+	}
+}
